@@ -752,6 +752,10 @@ def op_newbuf(m, op):
     b = Buf(kind in ('sab', 'gsab'), length, mx)
     if (kind in ('rab', 'gsab')) != (mx is not None):
         raise Malformed('newbuf kind/max')
+    if op.get('pat'):
+        # the harness fills the new buffer with a position-dependent pattern
+        for i in range(length):
+            b.data[i] = (i * 37 + 11) & 255
     m.B[op['id']] = b
     return 'undefined'
 
